@@ -32,7 +32,7 @@ func propC05(c *Ctx) {
 		return
 	}
 	ld, dep, lat := loads[0], deps[0], lats[0]
-	localNum := extractOf(lat, 0)
+	_ = lat
 	depNum := extractOf(dep, 0)
 	depErr, _ := errResult(dep)
 	// target = X in the step size, which is bounded by X - localNum
@@ -48,7 +48,7 @@ func propC05(c *Ctx) {
 			seen[v] = true
 			switch x := v.(type) {
 			case *ssa.BinOp:
-				if x.Op == token.SUB && stripNum(x.Y) == localNum {
+				if x.Op == token.SUB && m.isLatNum(x.Y) {
 					target = x.X
 				}
 			case *ssa.Phi:
@@ -63,7 +63,9 @@ func propC05(c *Ctx) {
 				}
 			}
 		}
-		walk(ld.Call.Args[5], 0)
+		if _, lim := loadRangeArgs(ld); lim != nil {
+			walk(lim, 0)
+		}
 	}
 	if target == nil {
 		c.Violation("R5.1", "Converge/target", ld.Pos(), "cannot identify the step target (limit is not min(target - position, batch))")
